@@ -9,6 +9,7 @@
   `reach_pools`).
 -/
 import Zed.Proofs.StoreBranch
+import Zed.Proofs.StoreFillRef
 namespace Zed.Props.C12
 open Zed.Store
 
@@ -190,6 +191,91 @@ theorem not_ack_exactly_once_if_pool_removed :
   intro h
   have := h (.start 2 (.delPool 1)) (by decide)
   simp [Label.resets, Start.resets] at this
+
+/-! ### The create-then-fill put discipline (local file engine)
+
+  `FSys` (Zed/Model/StoreFill.lean): every put is two transitions — the file is created /
+  truncated and can be read empty, then its content is written.  `FReach j f`: f is reachable from
+  a fresh journal j by any create-then-fill labels that do not delete pool j.  Which safety
+  theorems survive: all of them, because the discipline refines the atomic system and the files
+  that can be read half-written are never the ones a reader relies on. -/
+
+/-- **fill_refines** — every create-then-fill transition is, on the atomic component, a
+    stutter, the atomic transition of the same client, or the truncation of a snapshot file; so
+    the atomic component of every run is a reachable atomic state and `journal_linear`,
+    `entry_created_once`, `head_monotone`, `constraint_exact`, `journal_replayable`,
+    `ack_exactly_once`, `no_lost_update`, … hold of it (`fill_reach`, `fill_reachB`). -/
+theorem fill_refines (f : FSys) (c : Nat) :
+    (f.step c).1.a = f.a ∨ (f.step c).1.a = (f.a.step c).1 ∨ ∃ j, (f.step c).1.a = f.a.exec (.truncSnap j) :=
+  fill_step_refines f c
+
+/-- **fill_journal_linear** — with create-then-fill puts the entry *files* of journal j are
+    still exactly 1..e with HEAD's last complete value in {e-1, e}; a file that is still empty can
+    only be entry e while HEAD is e-1 (its creator has won the exclusive create and has not
+    written HEAD), and every entry at or below HEAD is complete and replays. -/
+theorem fill_journal_linear (j : Nat) (f : FSys) (h : FReach j f) :
+    ∃ e, (∀ n, (f.a.store (.ent j n)).isSome ↔ (1 ≤ n ∧ n ≤ e)) ∧
+      headOf f.a.store j ≤ e ∧ e ≤ headOf f.a.store j + 1 ∧
+      (∀ n, f.half (.ent j n) = true → n = e ∧ headOf f.a.store j + 1 = e) ∧
+      (∀ n, n ≤ headOf f.a.store j → f.half (.ent j n) = false) ∧
+      ∃ t, visibleTable f.a.store j = some t := by
+  obtain ⟨hr, hi⟩ := h.inv
+  obtain ⟨e, h1, h2⟩ := hr.inv12
+  refine ⟨e, h1.range, h1.he, h1.eh, fun n hh => fill_half_entry_is_end h1 hi n hh, ?_, h2.wf.tableAt_some _ h1.he⟩
+  intro n hn
+  cases hx : f.half (.ent j n) with
+  | false => rfl
+  | true => have := fill_half_entry_is_end h1 hi n hx; omega
+
+/-- **fill_entry_reads_complete** — no client ever reads a journal entry file between its
+    exclusive create and its filling: readers trust HEAD, and HEAD is written only after the entry
+    is complete.  (This is the theorem a reader that probes past HEAD — `Exists(HEAD+1)` — breaks:
+    it would take the created-but-empty entry for a committed "no change".) -/
+theorem fill_entry_reads_complete' (j : Nat) (f : FSys) (h : FReach j f) (c n : Nat) (ev : Ev)
+    (hev : (f.a.step c).2 = some ev) (hop : ev.op = .get) (hpath : ev.path = .ent j n) :
+    f.half (.ent j n) = false :=
+  fill_entry_reads_complete h.inv.1 h.inv.2 c n ev hev hop hpath
+
+/-- **fill_head_monotone** — HEAD, whenever it can be read (it is empty while being rewritten:
+    `readID` then retries), never regresses. -/
+theorem fill_head_monotone (j : Nat) (f : FSys) (h : FReach j f) (ls : List FLabel) (hn : NoResetF j ls)
+    (v v' : Nat) (hv : f.reads (.head j) = some (some (.num v)))
+    (hv' : (f.run ls).reads (.head j) = some (some (.num v'))) : v ≤ v' := by
+  have hr := h.inv.1
+  have key : ∀ (g : FSys) (w : Nat), g.reads (.head j) = some (some (.num w)) → headOf g.a.store j = w := by
+    intro g w hg
+    simp only [FSys.reads] at hg
+    split at hg
+    · cases hg
+    · cases hx : g.a.store (.head j) with
+      | none => simp [hx] at hg
+      | some y => simp [hx] at hg; subst hg; simp [headOf, hx]
+  obtain ⟨ls', h1, r1, _⟩ := fill_run_refines ls f
+  have hm := head_monotone j f.a hr ls' (r1 j hn)
+  rw [← h1] at hm
+  rw [key f v hv, key _ v' hv'] at hm
+  exact hm
+
+/-- **fill_ack_exactly_once** — branch commits under create-then-fill puts: every acknowledged
+    commit is exactly once on the chain from its branch's visible tip (atomic component; the
+    entries at or below HEAD it is replayed from are complete files by `fill_journal_linear`). -/
+theorem fill_ack_exactly_once (j : Nat) (hj : j ≠ 0) (f0 : FSys) (h0 : ReachB j f0.a) (ls : List FLabel)
+    (hn : NoResetF j ls) (hd : NoDropF j ls) (x : Ack) (hx : x ∈ (f0.run ls).a.acks) (hxj : x.pool = j) :
+    ∃ t tip, visibleTable (f0.run ls).a.store j = some t ∧ Table.get t x.branch = some tip ∧
+      (chain (f0.run ls).a.store j tip).count x.id = 1 :=
+  ack_exactly_once j hj _ (fill_reachB h0 ls hn hd) x hx hxj
+
+/-- Non-vacuity: a create-then-fill run on the pools journal in which client 1 reads HEAD while
+    client 0 is rewriting it (empty), retries, and both inserts end up in the journal. -/
+def fillDemo : List FLabel :=
+  [.start 0 (.commit 0 0 (.insert 1 7)), .start 1 (.commit 0 0 (.insert 2 8)),
+   .step 0, .step 0, .step 0, .step 0, .step 1, .step 1, .step 0] ++ List.replicate 8 (.step 1)
+
+example : FReach 0 (FSys.init.run fillDemo) := ⟨Sys.init, fillDemo, init_fresh, fun l _ => by
+  cases l with
+  | start c st => cases st <;> simp [FLabel.resets, Start.resets]
+  | step c => rfl, rfl⟩
+example : headOf (FSys.init.run fillDemo).a.store 0 = 2 ∧ (FSys.init.run fillDemo).broken = false := by decide
 
 /-! Non-vacuity: the hypotheses are satisfiable and the system does move. -/
 
